@@ -1,3 +1,246 @@
-From Coq Require Import ZArith.
-Theorem C05_stub : 1 + 1 = 2. Proof. reflexivity. Qed.
-Print Assumptions C05_stub.
+(* C05/Props.v — property theorems only (each closed by `exact`, Print Assumptions beneath).
+   Property C05: reorienting, canonicalising and slicing keep each voxel at its world position.
+   Arrays are (shape, get); affines are matrices over Z (every identity below is a polynomial
+   identity, valid in any commutative ring); A has rows of length 4 (rows4) and any number of
+   rows.  all48 = the 48 signed permutations of three axes (C05_all48_complete). *)
+From Coq Require Import ZArith List Bool Lia.
+From NV Require Import Base.PySlice C06.Model C06.Lemmas
+  C05.Model C05.LemmasS C05.Orient48 C05.OrientBox C05.Consist C05.Greedy C05.Canon C05.Lemmas.
+Import ListNotations.
+Open Scope Z_scope.
+
+(* ---------------------------------------------------------------------------- the slicer *)
+
+(* per axis and lifted to three axes, for ANY triples (start, stop, step) and ANY k: the affine
+   A.T built from start and step sends k to the world position of voxel start + k*step *)
+Theorem C05_slicer_axis_world : forall A t0 t1 t2 k0 k1 k2, rows4 A ->
+  mat_vec (mat_mul A (T3 t0 t1 t2)) [k0; k1; k2; 1]
+  = mat_vec A [snth t0 k0; snth t1 k1; snth t2 k2; 1].
+Proof. exact slicer_axis_world. Qed.
+Print Assumptions C05_slicer_axis_world.
+
+(* every axis length n >= 0, every slice (any sign / None / out-of-range start and stop, step <> 0):
+   the k-th selected index is a valid index of the axis *)
+Theorem C05_slicer_selected_in_range : forall n s k, 0 <= n -> step_of s <> 0 ->
+  0 <= k < slen (adjust n s) -> 0 <= snth (adjust n s) k < n.
+Proof. exact snth_in_range. Qed.
+Print Assumptions C05_slicer_selected_in_range.
+
+(* slice_affine, for every shape of rank >= 3, every affine and every index tuple accepted by
+   check_slicing whose canonical form c is valid (ix_valid: ints in range, as many real entries
+   as axes, non-zero steps — decidable, measured by the harness on every accepted case): the
+   three spatial entries are slices, slice_affine(index) = slice_affine(canonical index) =
+   A . T(start, step from slice.indices), every output voxel keeps its world position, the
+   selected voxels are inside the input, and the source index is NumPy's *)
+Theorem C05_slice_affine_world : forall A shape ix c, rows4 A -> (3 <= length shape)%nat ->
+  check_slicing ix shape = Ok5 c -> ix_valid shape c ->
+  exists n0 n1 n2 rest s0 s1 s2 crest,
+    shape = n0 :: n1 :: n2 :: rest /\ c = CSl s0 :: CSl s1 :: CSl s2 :: crest /\
+    let t0 := adjust n0 s0 in let t1 := adjust n1 s1 in let t2 := adjust n2 s2 in
+    let A' := mat_mul A (T3 t0 t1 t2) in
+    slice_affine A shape ix = Ok5 A' /\
+    slice_affine A shape (map cidx_to_idx c) = Ok5 A' /\
+    forall k0 k1 k2, 0 <= k0 < slen t0 -> 0 <= k1 < slen t1 -> 0 <= k2 < slen t2 ->
+      mat_vec A' [k0; k1; k2; 1] = mat_vec A [snth t0 k0; snth t1 k1; snth t2 k2; 1]
+      /\ 0 <= snth t0 k0 < n0 /\ 0 <= snth t1 k1 < n1 /\ 0 <= snth t2 k2 < n2
+      /\ forall kr, src_index shape c (k0 :: k1 :: k2 :: kr)
+                    = snth t0 k0 :: snth t1 k1 :: snth t2 k2 :: src_index rest crest kr.
+Proof. exact slicer_affine_world. Qed.
+Print Assumptions C05_slice_affine_world.
+
+(* img.slicer[index] as a whole: whenever it returns an image, every output voxel
+   (k0, k1, k2, kr) holds the value of input voxel (start_i + k_i * step_i, NumPy's index on the
+   other axes), at the same world position under the new affine; no output axis is empty *)
+Theorem C05_slicer_voxel_world : forall V (im im' : img V) ix,
+  let shape := a_shape (i_data im) in
+  rows4 (i_aff im) -> (3 <= length shape)%nat ->
+  slicer_getitem im ix = Ok5 im' ->
+  exists c, check_slicing ix shape = Ok5 c /\
+  (ix_valid shape c ->
+   exists n0 n1 n2 rest s0 s1 s2 crest,
+    shape = n0 :: n1 :: n2 :: rest /\ c = CSl s0 :: CSl s1 :: CSl s2 :: crest /\
+    let t0 := adjust n0 s0 in let t1 := adjust n1 s1 in let t2 := adjust n2 s2 in
+    a_shape (i_data im') = slen t0 :: slen t1 :: slen t2 :: np_shape rest crest /\
+    0 < slen t0 /\ 0 < slen t1 /\ 0 < slen t2 /\
+    forall k0 k1 k2 kr, 0 <= k0 < slen t0 -> 0 <= k1 < slen t1 -> 0 <= k2 < slen t2 ->
+      a_get (i_data im') (k0 :: k1 :: k2 :: kr)
+        = a_get (i_data im) (snth t0 k0 :: snth t1 k1 :: snth t2 k2 :: src_index rest crest kr)
+      /\ mat_vec (i_aff im') [k0; k1; k2; 1] = mat_vec (i_aff im) [snth t0 k0; snth t1 k1; snth t2 k2; 1]
+      /\ 0 <= snth t0 k0 < n0 /\ 0 <= snth t1 k1 < n1 /\ 0 <= snth t2 k2 < n2).
+Proof. exact @slicer_getitem_world. Qed.
+Print Assumptions C05_slicer_voxel_world.
+
+(* an integer or None among the three spatial entries is refused (IndexError), never answered *)
+Theorem C05_slicer_refuses_scalar : forall V (im : img V) ix c,
+  canonical_slicers true ix (a_shape (i_data im)) = Ok c ->
+  forallb is_csl (firstn 3 c) = false -> slicer_getitem im ix = Err5 E5Index.
+Proof. exact @slicer_refuses_scalar. Qed.
+Print Assumptions C05_slicer_refuses_scalar.
+
+(* ---------------------------------------------------------------------------- reorientation *)
+
+(* every shape of rank >= 3 (any axis lengths), each of the 48 orientations, every affine:
+   as_reoriented (NIfTI flavour: dim_info remapped) returns an image whose voxel j holds the
+   value of input voxel src_spec o shape j, at the same world position; non-spatial indices
+   are unchanged; the identity orientation returns the image itself *)
+Theorem C05_reorient_voxel_world : forall V (im : img V) o n0 n1 n2 rest,
+  In o all48 -> a_shape (i_data im) = n0 :: n1 :: n2 :: rest -> rows4 (i_aff im) -> dims_ok (i_dim im) ->
+  let shape := n0 :: n1 :: n2 :: rest in
+  exists same im', nifti_as_reoriented im o = Ok5 (same, im') /\
+    (same = true -> im' = im /\ o = ident3) /\
+    (same = false -> o <> ident3 /\ i_aff im' = mat_mul (i_aff im) (inv_ornt_aff o shape)) /\
+    a_shape (i_data im') = out_shape_spec o shape /\
+    i_dim im' = remap_dim o (i_dim im) /\
+    forall j0 j1 j2 jr, length jr = length rest ->
+      let s := src_spec o shape (j0 :: j1 :: j2 :: jr) in
+      a_get (i_data im') (j0 :: j1 :: j2 :: jr) = a_get (i_data im) s /\
+      mat_vec (i_aff im') [j0; j1; j2; 1] = mat_vec (i_aff im) (firstn 3 s ++ [1]) /\
+      skipn 3 s = jr.
+Proof. exact @nifti_as_reoriented_world. Qed.
+Print Assumptions C05_reorient_voxel_world.
+
+(* the same for SpatialImage.as_reoriented (Analyze, MGH, ...): dim_info untouched *)
+Theorem C05_reorient_voxel_world_spatial : forall V (im : img V) o n0 n1 n2 rest,
+  In o all48 -> a_shape (i_data im) = n0 :: n1 :: n2 :: rest -> rows4 (i_aff im) ->
+  let shape := n0 :: n1 :: n2 :: rest in
+  exists same im', as_reoriented im o = Ok5 (same, im') /\
+    (same = true -> im' = im /\ o = ident3) /\
+    (same = false -> o <> ident3 /\ i_aff im' = mat_mul (i_aff im) (inv_ornt_aff o shape)) /\
+    a_shape (i_data im') = out_shape_spec o shape /\
+    i_dim im' = i_dim im /\
+    forall j0 j1 j2 jr, length jr = length rest ->
+      let s := src_spec o shape (j0 :: j1 :: j2 :: jr) in
+      a_get (i_data im') (j0 :: j1 :: j2 :: jr) = a_get (i_data im) s /\
+      mat_vec (i_aff im') [j0; j1; j2; 1] = mat_vec (i_aff im) (firstn 3 s ++ [1]) /\
+      skipn 3 s = jr.
+Proof. exact @as_reoriented_world. Qed.
+Print Assumptions C05_reorient_voxel_world_spatial.
+
+(* apply_orientation and inv_ornt_aff on their own (any array, any rank >= 3) *)
+Theorem C05_apply_orientation_spec : forall o, In o all48 ->
+  forall V (t : arr V) n0 n1 n2 rest, a_shape t = n0 :: n1 :: n2 :: rest ->
+    exists t', apply_orientation t o = Ok5 t' /\
+      a_shape t' = out_shape_spec o (n0 :: n1 :: n2 :: rest) /\
+      forall j0 j1 j2 jr, length jr = length rest ->
+        a_get t' (j0 :: j1 :: j2 :: jr) = a_get t (src_spec o (n0 :: n1 :: n2 :: rest) (j0 :: j1 :: j2 :: jr)).
+Proof. exact all48_reorient_ok. Qed.
+Print Assumptions C05_apply_orientation_spec.
+
+Theorem C05_inv_ornt_aff_spec : forall o, In o all48 ->
+  forall n0 n1 n2 rest j0 j1 j2 jr,
+    let shape := n0 :: n1 :: n2 :: rest in
+    is44 (inv_ornt_aff o shape) /\
+    mat_vec (inv_ornt_aff o shape) [j0; j1; j2; 1]
+    = firstn 3 (src_spec o shape (j0 :: j1 :: j2 :: jr)) ++ [1].
+Proof. exact all48_inv_aff_ok. Qed.
+Print Assumptions C05_inv_ornt_aff_spec.
+
+(* no voxel is lost or duplicated: src_spec is a bijection between the index box of the output
+   shape and that of the input shape (inverse dst_spec), and the number of voxels is the same *)
+Theorem C05_reorient_bijection : forall o, In o all48 -> box_ok o.
+Proof. exact all48_box_ok. Qed.
+Print Assumptions C05_reorient_bijection.
+
+(* NIfTI freq / phase / slice labels: the label on input axis d moves to the output axis that
+   runs along input axis d (same length; index equal or reversed; no other output axis moves it) *)
+Theorem C05_dim_info_follows : forall o, In o all48 -> dim_follows o.
+Proof. exact all48_dim_follows. Qed.
+Print Assumptions C05_dim_info_follows.
+
+(* ---------------------------------------------------------------------------- consistency *)
+
+(* all48 is exactly the set of orientation arrays of three axes *)
+Theorem C05_all48_complete : forall o, is_ornt3 o = true <-> In o all48.
+Proof. exact all48_is_ornt3. Qed.
+Print Assumptions C05_all48_complete.
+
+(* for all 48 (finite domain, enumerated completely): axcodes2ornt (ornt2axcodes o) = o with three
+   distinct codes; ornt_transform a b is again one of the 48, is the identity iff a = b, turns an
+   image of orientation a into one of orientation b (row-wise relation on the affines' columns);
+   ornt_transform a c = ornt_transform a b followed by ornt_transform b c, for all 48^3 triples *)
+Theorem C05_ornt_consistency :
+  (forall o, In o all48 ->
+     exists c0 c1 c2,
+       ornt2axcodes ras_labels (map Some o) = Ok5 [Some c0; Some c1; Some c2]
+       /\ axcodes2ornt ras_labels [Some c0; Some c1; Some c2] = Ok5 (map Some o)
+       /\ c0 <> c1 /\ c0 <> c2 /\ c1 <> c2)
+  /\ (forall a b, In a all48 -> In b all48 ->
+        exists t, ornt_transform a b = Ok5 t /\ In t all48 /\ (t = ident3 <-> a = b)
+          /\ forall r, 0 <= r < 3 ->
+               znth b (fst (znth t r (0, 0))) (0, 0)
+               = (fst (znth a r (0, 0)), snd (znth a r (0, 0)) * snd (znth t r (0, 0))))
+  /\ (forall a b c, In a all48 -> In b all48 -> In c all48 ->
+        exists x y z, ornt_transform a b = Ok5 x /\ ornt_transform b c = Ok5 y
+          /\ ornt_transform a c = Ok5 z /\ z = ornt_compose x y).
+Proof. exact ornt_consistency. Qed.
+Print Assumptions C05_ornt_consistency.
+
+(* what ornt_compose means on arrays: reading through t1 then t2 = reading through the composition *)
+Theorem C05_ornt_compose_spec : forall t1, In t1 all48 -> compose_ok t1.
+Proof. exact all48_compose_ok. Qed.
+Print Assumptions C05_ornt_compose_spec.
+
+(* ---------------------------------------------------------------------------- canonical *)
+
+(* the loop of io_orientation, any number of axes: if every input axis a has its own output axis
+   d(a) strictly dominating its column of R (above the allclose tolerance), the loop returns
+   exactly (d(a), sign) — the greedy row removal never interferes *)
+Theorem C05_io_loop_dominant : forall atol (d : Z -> Z) axs R,
+  NoDup axs -> (forall a b, In a axs -> In b axs -> a <> b -> d a <> d b) ->
+  (forall a, In a axs -> dominant atol (mcolz R a) (d a)) ->
+  io_loop atol R axs
+  = map (fun a => Some (d a, if znth (mcolz R a) (d a) 0 <? 0 then -1 else 1)) axs.
+Proof. exact io_loop_dominant. Qed.
+Print Assumptions C05_io_loop_dominant.
+
+(* canonicalising twice changes nothing whenever each voxel axis has its own dominant world axis
+   (dom_ornt, on the oracle's output R = rot(affine)), GIVEN the oracle contract rot_equivariant
+   (the polar factor of numpy.linalg.svd commutes with signed column permutations — exact
+   arithmetic; the float layer is measured by the harness with a dominance margin).  The first
+   canonicalisation is the reorientation by o of C05_reorient_voxel_world. *)
+Theorem C05_canonical_idempotent : forall V (rot : mat -> mat) (atol : Z) (im : img V) o n0 n1 n2 rest,
+  rot_equivariant rot ->
+  In o all48 -> a_shape (i_data im) = n0 :: n1 :: n2 :: rest -> is44 (i_aff im) -> dims_ok (i_dim im) ->
+  is33 (rot (i_aff im)) -> dom_ornt atol (rot (i_aff im)) o ->
+  io_orientation rot atol (i_aff im) = map Some o /\
+  exists same im1,
+    as_closest_canonical rot atol im = Ok5 (same, im1)
+    /\ nifti_as_reoriented im o = Ok5 (same, im1)
+    /\ io_orientation rot atol (i_aff im1) = map Some ident3
+    /\ as_closest_canonical rot atol im1 = Ok5 (true, im1).
+Proof. exact @canonical_twice. Qed.
+Print Assumptions C05_canonical_idempotent.
+
+(* ---------------------------------------------------------------------------- non-vacuity *)
+
+(* slicer: a 4-D image, reversed / strided / out-of-range spatial slices, Ellipsis and an int on
+   the last axis; hypotheses hold and the result is the expected non-trivial one *)
+Example C05_nonvacuous :
+  let A := [[2; -1; 1; 7]; [1; 3; 0; -4]; [0; 1; -2; 5]; [0; 0; 0; 1]] in
+  let ix := [ISl (mkSl None None (Some (-1))); ISl (mkSl (Some (-7)) None (Some 2)); IEll; IInt 1] in
+  rows4 A
+  /\ (exists c, check_slicing ix [2; 3; 4; 2] = Ok5 c /\ ix_validb [2; 3; 4; 2] c = true)
+  /\ run_slicer [2; 3; 4; 2] ix A
+     = Ok5 ([2; 2; 4], [[-2; -2; 1; 9]; [-1; 6; 0; -3]; [0; 2; -2; 5]; [0; 0; 0; 1]],
+            [25; 27; 29; 31; 41; 43; 45; 47; 1; 3; 5; 7; 17; 19; 21; 23])
+  (* reorientation: a non-identity member of the 48 on a 4-D shape *)
+  /\ In [(1, -1); (2, 1); (0, -1)] all48
+  /\ run_reorient true [2; 3; 4] [(1, -1); (2, 1); (0, -1)] A [Some 0; Some 2; None]
+     = Ok5 (false, [4; 2; 3], [[-1; -2; -1; 12]; [0; -1; 3; -3]; [2; 0; 1; -1]; [0; 0; 0; 1]],
+            [Some 1; Some 0; None],
+            [15; 19; 23; 3; 7; 11; 14; 18; 22; 2; 6; 10; 13; 17; 21; 1; 5; 9; 12; 16; 20; 0; 4; 8])
+  (* canonical: the oracle contract is satisfiable and the dominance hypothesis holds on an
+     oblique integer affine with a non-identity orientation *)
+  /\ rot_equivariant lin3
+  /\ (let B := [[0; -3; 1; 5]; [4; 0; 0; 6]; [1; 1; 5; 7]; [0; 0; 0; 1]] in
+      is44 B /\ is33 (lin3 B) /\ In [(1, 1); (0, -1); (2, 1)] all48
+      /\ io_orientation lin3 0 B = [Some (1, 1); Some (0, -1); Some (2, 1)]
+      /\ io_orientation lin3 0 (mat_mul B (inv_ornt_aff [(1, 1); (0, -1); (2, 1)] [2; 3; 4]))
+         = map Some ident3).
+Proof.
+  cbv zeta. split; [repeat constructor|]. split; [eexists; split; vm_compute; reflexivity|].
+  split; [vm_compute; reflexivity|]. split; [vm_compute; tauto|]. split; [vm_compute; reflexivity|].
+  split; [exact lin3_equivariant|].
+  split; [split; [reflexivity|repeat constructor]|]. split; [split; [reflexivity|repeat constructor]|].
+  split; [vm_compute; tauto|]. split; vm_compute; reflexivity.
+Qed.
